@@ -76,10 +76,10 @@ func rBytes(r *rand.Rand, big bool) []byte {
 func eqBytes(a, b []byte) bool { return bytes.Equal(a, b) } // nil == empty: proto3 cannot tell them apart
 
 type codecCtx struct {
-	x          *Ctx
+	x            *Ctx
 	convNilEmpty int
-	cases      int
-	kinds      map[string]int
+	cases        int
+	kinds        map[string]int
 }
 
 func (c *codecCtx) viol(sig, format string, args ...interface{}) {
